@@ -130,7 +130,10 @@ Section ProductProofs.
 
   (** the simulation: every concrete step is an abstract step or a stutter *)
   Theorem xsim_step xs st l xs' : XR xs st -> xstep k sc srcs xs l = Some xs' ->
-    exists st', (st' = st \/ exists pl, pstep k sc st pl = Some st') /\ XR xs' st'.
+    exists st', match l with
+                | XHandle _ _ _ => exists pl, pstep k sc st pl = Some st'
+                | _ => st' = st
+                end /\ XR xs' st'.
   Proof.
     intros R E. destruct R as [Rinv Rtop Rsink Rcalls Rlog].
     destruct l as [t cl|bls|t c bls]; simpl in E.
@@ -139,7 +142,7 @@ Section ProductProofs.
       destruct (cstep x (xtop xs t) cl) as [st1|] eqn:E1; [|discriminate].
       destruct (is_quiet_lab (lab x (xtop xs t) cl st1)) eqn:Hq; [|discriminate]. injection E as <-.
       destruct (quiet_abs _ _ _ (Rinv t Ht) E1 Hq) as [HI1 Ha].
-      exists st. split; [now left|]. constructor; simpl; auto.
+      exists st. split; [reflexivity|]. constructor; simpl; auto.
       + intros u Hu. destruct (Nat.eq_dec u t) as [->|Hne]; [now rewrite upd_same|].
         rewrite upd_other by exact Hne. now apply Rinv.
       + intros u Hu. unfold xpending, extra. simpl.
@@ -154,7 +157,7 @@ Section ProductProofs.
       destruct (pub_all_spec x bls _ _ _ (Rinv 0 k_pos) Ep) as [HI1 Ha].
       pose proof (abs_nodup x st1 HI1) as Hnd. rewrite Ha in Hnd. simpl in Hnd.
       inversion Hnd as [|? ? Hp _]; subst.
-      exists st. split; [now left|]. constructor; simpl; auto.
+      exists st. split; [reflexivity|]. constructor; simpl; auto.
       + intros u Hu. destruct (Nat.eq_dec u 0) as [->|Hne]; [now rewrite upd_same|].
         rewrite upd_other by exact Hne. now apply Rinv.
       + intros u Hu. unfold xpending, extra. simpl. destruct (Nat.eq_dec u 0) as [->|Hne].
@@ -206,7 +209,7 @@ Section ProductProofs.
                          (upd (calls st) t (S (calls st t)))
                          (dlog st ++ [D t (calls st t) m (sc t (calls st t)) tr fwd w]))).
       { unfold Model.pstep. rewrite Ht', Erest, (Rcalls t). fold f. rewrite Ert. reflexivity. }
-      eexists. split; [right; exists (t, m); exact Hstep|].
+      eexists. split; [exists (t, m); exact Hstep|].
       (* the relation afterwards *)
       assert (HT1_t : Permutation (T1 t) (map (xmsg xs t) (abs x (g, a')) ++ extra xs t)).
       { rewrite Habs'. unfold T1. clear -Prest Pr0 Pt. destruct b.
@@ -260,4 +263,164 @@ Section ProductProofs.
         * intros u. unfold upd. rewrite (Rcalls t). destruct (Nat.eqb u t); [reflexivity|apply Rcalls].
         * now rewrite Rlog, (Rcalls t).
   Qed.
+
+  Notation prun := (prun hf eqbM rt_handle).
+  Notation xrun := (xrun hf x).
+
+  Lemma prun_snoc st pls pl st' : pstep k sc (prun k sc st pls) pl = Some st' ->
+    prun k sc st (pls ++ [pl]) = st'.
+  Proof.
+    revert st. induction pls as [|q pls IH]; intros st H; simpl in *.
+    - now rewrite H.
+    - destruct (pstep k sc st q); now apply IH.
+  Qed.
+
+  (** every run of the product maps to a run of the abstract pipeline *)
+  Theorem xsim_run ls : forall xs st, XR xs st ->
+    exists pls, XR (xrun k sc srcs xs ls) (prun k sc st pls).
+  Proof.
+    induction ls as [|l ls IH]; intros xs st R; simpl.
+    - exists []. exact R.
+    - destruct (xstep k sc srcs xs l) as [xs'|] eqn:E; [|now apply IH].
+      destruct (xsim_step xs st l xs' R E) as (st' & Hl & R').
+      destruct l as [t cl|bls|t c bls]; try (subst st'; now apply IH).
+      destruct Hl as [pl Hp].
+      destruct (IH xs' st' R') as (pls & Rf). exists (pl :: pls). simpl. now rewrite Hp.
+  Qed.
+
+  (** * liveness, the part that transfers: finitely many Router steps *)
+  Definition is_handle (l : xlabel) : bool := match l with XHandle _ _ _ => true | _ => false end.
+
+  Lemma xsim_stutter_run ls : forall xs st, XR xs st -> forallb (fun l => negb (is_handle l)) ls = true ->
+    XR (xrun k sc srcs xs ls) st.
+  Proof.
+    induction ls as [|l ls IH]; intros xs st R H; simpl; [exact R|].
+    simpl in H. apply andb_true_iff in H as [Hl Hls].
+    destruct (xstep k sc srcs xs l) as [xs'|] eqn:E; [|now apply IH].
+    destruct (xsim_step xs st l xs' R E) as (st' & Hm & R').
+    destruct l; try discriminate Hl; subst st'; now apply IH.
+  Qed.
+
+  (** b is reached from a by any number of non-Router steps followed by one Router step *)
+  Definition hsucc (b a : xstate) : Prop :=
+    exists ls t c bls, forallb (fun l => negb (is_handle l)) ls = true
+                       /\ xstep k sc srcs (xrun k sc srcs a ls) (XHandle t c bls) = Some b.
+
+  Lemma acc_transfer st : Acc (psucc hf eqbM rt_handle k sc) st -> forall xs, XR xs st -> Acc hsucc xs.
+  Proof.
+    induction 1 as [st _ IH]. intros xs R. constructor. intros b (ls & t & c & bls & Hq & Hs).
+    pose proof (xsim_stutter_run ls xs st R Hq) as R1.
+    destruct (xsim_step _ st _ b R1 Hs) as (st' & [pl Hp] & R'). simpl in Hp.
+    apply (IH st'); [exists pl; exact Hp|exact R'].
+  Qed.
+
+  (** * what transfers to the composition *)
+  Section Transfer.
+    Variable mk : nat -> cstate.
+    Variable dflt : M.
+    Hypothesis mk_ok : forall t, t < k -> CInv x (mk t) /\ abs x (mk t) = [].
+    Variable ls : list (xlabel).
+    Let xs := xrun k sc srcs (xinit mk dflt) ls.
+
+    Theorem product_refines : exists pls, XR xs (prun k sc (pinit srcs) pls).
+    Proof. apply xsim_run. now apply xr_init. Qed.
+
+    (** safety 1: nothing arriving at the final topic of the composition is invented *)
+    Theorem product_nothing_invented : forall y, In y (xsink xs) -> In y (expected_sink hf k srcs).
+    Proof.
+      destruct product_refines as (pls & R). intros y Hy.
+      destruct (nothing_invented hf eqbM eqbM_spec k sc srcs pls) as (H & _). apply H.
+      eapply Permutation_in; [apply Permutation_sym, (r_sink _ _ R)|exact Hy].
+    Qed.
+
+    (** safety 2: every Router step of the composition passes the delivery monitor: Ack only
+        after the next topic accepted every output, Nack on every fault *)
+    Theorem product_ack_only_after_next_accepted :
+      log_ok hf eqbM (xlog xs) = true
+      /\ forall d, In d (xlog xs) ->
+           (d_final d = Acked -> d_fwd d = hf (d_stage d) (d_msg d)
+                                 /\ ack_after_publish (d_tr d) false = true)
+           /\ (d_final d = Acked \/ d_final d = Nacked).
+    Proof.
+      destruct product_refines as (pls & R). rewrite <- (r_log _ _ R).
+      destruct (ack_only_after_next_accepted hf eqbM eqbM_spec k sc srcs pls) as [H1 H2].
+      split; [exact H1|]. intros d Hd. destruct (H2 d Hd) as (Ha & Hb & _). now split.
+    Qed.
+
+    (** safety 3: never lost - every expected arrival is at the final topic, or descends from a
+        publication pending at some GoChannel topic or from a source message not yet published *)
+    Theorem product_never_lost : forall y, In y (expected_sink hf k srcs) ->
+      In y (xsink xs)
+      \/ exists t m, t < k /\ In m (xpending x xs t ++ extra xs t) /\ In y (desc hf (k - t) t m).
+    Proof.
+      destruct product_refines as (pls & R). intros y Hy.
+      destruct (never_lost hf eqbM eqbM_spec k sc srcs pls y Hy) as [H|(t & m & Ht & Hm & Hd)].
+      - left. eapply Permutation_in; [apply (r_sink _ _ R)|exact H].
+      - right. exists t, m. split; [exact Ht|]. split; [|exact Hd].
+        eapply Permutation_in; [apply (r_top _ _ R t Ht)|exact Hm].
+    Qed.
+
+    (** liveness, PARTIAL: under the fairness hypothesis every run of the composition contains only
+        finitely many Router steps, whatever happens in between ([Acc] of "any number of other steps,
+        then one Router step").  Missing for the full "everything arrives": that the steps between
+        two Router steps are finitely many and lead to the next hand-over.  That needs (a) a finite
+        environment ([XInt] lets arbitrary other clients of the same GoChannel publish, subscribe and
+        cancel for ever), (b) a progress measure for the composed topic while the subscription is NOT
+        closing ([SubLive.quiet_run_bounded] is for the woken teardown only; here the rank would be
+        (Senders not yet at their select) + (registry program counters of the pending Publish
+        calls)), and (c) the fact that a quiescent composed topic with a non-empty [abs] has a
+        Sender at its hand-over - from [v_out]/[v_cur] of SubProofs plus a scheduler-fairness
+        assumption for the sending lock. *)
+    Theorem product_router_steps_finite_partial : eventually_clean k sc -> Acc hsucc xs.
+    Proof.
+      intros [B HB]. destruct product_refines as (pls & R).
+      eapply acc_transfer; [|exact R].
+      eapply (acc_all hf eqbM rt_handle eqbM_spec (@rth_final M) (@rth_publishes M) k sc B HB).
+    Qed.
+  End Transfer.
 End ProductProofs.
+
+(** * the product of freshly made GoChannels *)
+Lemma cinit_ok x pers blk fx cap0 sfx :
+  CInv x (cinit pers blk fx cap0 sfx) /\ abs x (cinit pers blk fx cap0 sfx) = [].
+Proof. split; [apply cinv_init|reflexivity]. Qed.
+
+Section Fresh.
+  Context {M : Type}.
+  Variable hf : nat -> M -> list M.
+  Variable eqbM : M -> M -> bool.
+  Hypothesis eqbM_spec : forall a b, eqbM a b = true <-> a = b.
+  Variables (x : subid) (k : nat) (sc : script) (srcs : list M) (dflt : M).
+  Hypothesis k_pos : 0 < k.
+  Variables (pers blk fx : bool) (cap0 : nat) (sfx : bool).
+  Variable ls : list xlabel.
+
+  Let mk : nat -> cstate := fun _ => cinit pers blk fx cap0 sfx.
+  Let xs := xrun hf x k sc srcs (xinit mk dflt) ls.
+  Let mk_ok : forall t, t < k -> CInv x (mk t) /\ abs x (mk t) = [] :=
+    fun t _ => cinit_ok x pers blk fx cap0 sfx.
+
+  Theorem fresh_product_refines :
+    exists pls, XR x k srcs xs (prun hf eqbM rt_handle k sc (pinit srcs) pls).
+  Proof. exact (product_refines hf eqbM eqbM_spec x k sc srcs k_pos mk dflt mk_ok ls). Qed.
+
+  Theorem fresh_product_nothing_invented : forall y, In y (xsink xs) -> In y (expected_sink hf k srcs).
+  Proof. exact (product_nothing_invented hf eqbM eqbM_spec x k sc srcs k_pos mk dflt mk_ok ls). Qed.
+
+  Theorem fresh_product_ack_only_after_next_accepted :
+    log_ok hf eqbM (xlog xs) = true
+    /\ forall d, In d (xlog xs) ->
+         (d_final d = Acked -> d_fwd d = hf (d_stage d) (d_msg d)
+                               /\ ack_after_publish (d_tr d) false = true)
+         /\ (d_final d = Acked \/ d_final d = Nacked).
+  Proof. exact (product_ack_only_after_next_accepted hf eqbM eqbM_spec x k sc srcs k_pos mk dflt mk_ok ls). Qed.
+
+  Theorem fresh_product_never_lost : forall y, In y (expected_sink hf k srcs) ->
+    In y (xsink xs)
+    \/ exists t m, t < k /\ In m (xpending x xs t ++ extra srcs xs t) /\ In y (desc hf (k - t) t m).
+  Proof. exact (product_never_lost hf eqbM eqbM_spec x k sc srcs k_pos mk dflt mk_ok ls). Qed.
+
+  Theorem fresh_product_router_steps_finite_partial : eventually_clean k sc ->
+    Acc (hsucc hf x k sc srcs) xs.
+  Proof. exact (product_router_steps_finite_partial hf eqbM eqbM_spec x k sc srcs k_pos mk dflt mk_ok ls). Qed.
+End Fresh.
